@@ -402,6 +402,13 @@ func Run(ctx *common.Ctx) {
 			ctx.Hist("own-name-closure:" + strings.SplitN(onames[i], " <- ", 2)[0])
 		}
 	}
+	// the enumerated block: a lambda expression called where it stands, in code that is evaluated repeatedly
+	lblock, lnames := lambdaFormBlock()
+	for i, forms := range lblock {
+		if emit(forms, 0) {
+			ctx.Hist("inline-lambda-call:" + lnames[i])
+		}
+	}
 	nblock := len(terms)
 	for n := 0; len(terms) < nblock+ncases && n < 3*ncases && len(ctx.Meta.Direct) < 60; n++ {
 		kbase += 1000
@@ -410,7 +417,7 @@ func Run(ctx *common.Ctx) {
 	}
 	ctx.Meta.DistinctNontrivial = len(distinct)
 	ctx.Meta.Extra = map[string]any{"max_function_evals_in_one_program": maxSeen, "function_eval_limit": maxEvals}
-	ctx.Meta.Rule = "an enumerated block (every single-value position of the modelled language x eleven producers of zero, one and two values, 429 programs, the same on every run), an enumerated block of case forms (eleven key lists over {1, 2, foo, t, otherwise, nil} - t, otherwise and nil inside a key list are ordinary keys - x five clause arrangements x eight key values = 440 programs), an enumerated block of closures made by the init form of a binding of V over the NAME V (thirteen binders - let*, let, do, do*, &optional default, lambda argument, multiple-value-bind in several positions - x a reading / an assigning closure x the closure is the value / is stored / is called by the init form, plus dolist and dotimes list / count forms = 86 programs; the closure must refer to the enclosing V) followed by typed random programs (nesting depth <= 6, 30-80 nodes; up to 2 preceding defuns, some recursive on a counter, some closed over let variables, some with function parameters; function-valued expressions returned through every control form; lambdas and defuns inside scopes without bindings; idioms: closure made in a random creation context and called under a rebinding of its variable, closures over one binding, closures made in loop bodies, closures over the own name of a binding made by its init form, do without variables) over constants, variables, quote of arbitrary data, progn, prog1, if, when, unless, cond, case, and, or, let, let*, setq, lambda, funcall, apply, mapcar, function designators, dolist, dotimes, do, do*, values, multiple-value-bind and integer/list built-ins, with (tr k e) probes in every evaluated position and reuse of variable names (shadowing); observable = value(s) or condition class + trace; distinct = distinct programs whose trace is not empty"
+	ctx.Meta.Rule = "an enumerated block (every single-value position of the modelled language x eleven producers of zero, one and two values, 429 programs, the same on every run), an enumerated block of case forms (eleven key lists over {1, 2, foo, t, otherwise, nil} - t, otherwise and nil inside a key list are ordinary keys - x five clause arrangements x eight key values = 440 programs), an enumerated block of closures made by the init form of a binding of V over the NAME V (thirteen binders - let*, let, do, do*, &optional default, lambda argument, multiple-value-bind in several positions - x a reading / an assigning closure x the closure is the value / is stored / is called by the init form, plus dolist and dotimes list / count forms = 86 programs; the closure must refer to the enclosing V), an enumerated block of lambda expressions called where they stand in code that is evaluated repeatedly (four spellings - the lambda form ((lambda ..) a), funcall of (lambda ..), #'(lambda ..), (function (lambda ..)) - x four bodies - reads / assigns the captured variable, returns a closure, &optional default - x eight re-evaluation contexts - let in dotimes / dolist / do, defun called three times, recursion, closure called twice, mapcar - = 128 programs; every evaluation must close over the binding of THAT evaluation) followed by typed random programs (an inline funcall of a lambda expression is spelled as a lambda form, with #' or with function one time in two) (nesting depth <= 6, 30-80 nodes; up to 2 preceding defuns, some recursive on a counter, some closed over let variables, some with function parameters; function-valued expressions returned through every control form; lambdas and defuns inside scopes without bindings; idioms: closure made in a random creation context and called under a rebinding of its variable, closures over one binding, closures made in loop bodies, closures over the own name of a binding made by its init form, do without variables) over constants, variables, quote of arbitrary data, progn, prog1, if, when, unless, cond, case, and, or, let, let*, setq, lambda, funcall, apply, mapcar, function designators, dolist, dotimes, do, do*, values, multiple-value-bind and integer/list built-ins, with (tr k e) probes in every evaluated position and reuse of variable names (shadowing); observable = value(s) or condition class + trace; distinct = distinct programs whose trace is not empty"
 	header := "From C01 Require Import Model Corr.\nOpen Scope string_scope.\n"
 	footer := "Definition res := Eval vm_compute in check_all cases.\nPrint res.\n" +
 		"Definition guarded := Eval vm_compute in guard_count cases.\nPrint guarded.\n" +
